@@ -94,13 +94,15 @@ def _run(P, tier, seed, rnd, work, notes, t0):
     corpus = corpus_lines(P.ID)
     cases = corpus + P.gen(rnd, tier, n)
     impl = run_impl(impl_exe, cases, work, sequential=getattr(P, "SEQUENTIAL", False))
-    model = run_model(model_exe, cases, work) if (runners_ok and P.NEEDS_MODEL) else [None] * len(cases)
+    # properties whose model side validates what the implementation did (event traces) derive the model's input from the impl's output
+    model_lines = [P.model_input(c, o) for c, o in zip(cases, impl)] if hasattr(P, "model_input") else cases
+    model = run_model(model_exe, model_lines, work) if (runners_ok and P.NEEDS_MODEL) else [None] * len(cases)
     extra = P.extra(tier, seed, work, notes) if hasattr(P, "extra") else {"failures": [], "coverage": {}}
 
     disagreements = []
     if runners_ok and P.NEEDS_MODEL:
         for i, (a, b) in enumerate(zip(impl, model)):
-            ca, cb = P.canon(cases[i], a), P.canon(cases[i], b)
+            ca, cb = P.canon(cases[i], a), (P.canon_model(cases[i], b) if hasattr(P, "canon_model") else P.canon(cases[i], b))
             if ca != cb and ca != "SKIP":
                 disagreements.append(i)
     elif P.NEEDS_MODEL:
